@@ -19,7 +19,7 @@ if [ -z "$ids" ]; then
 		ociregistry/ociclient/*) s="$s C01 C03 C04 C05 C07 C08 C18" ;;
 		ociregistry/ociserver/*) s="$s C01 C03 C04 C05 C06 C07 C08" ;;
 		ociregistry/ociauth/*) s="$s C10 C11 C19" ;;
-		ociregistry/ocifilter/*) s="$s C12 C13 C14" ;;
+		ociregistry/ocifilter/*) s="$s C05 C12 C13 C14" ;;
 		ociregistry/ociunify/*) s="$s C15 C16 C04 C05" ;;
 		ociregistry/ocidebug/*) s="$s C03 C04" ;;
 		ociregistry/internal/ocirequest/*) s="$s C06 C03 C05 C18" ;;
@@ -37,6 +37,10 @@ elif git -C "$W/tree" apply --3way "$PATCH" >/dev/null 2>&1 && ! git -C "$W/tree
 	# (written against an earlier commit; a later repair touched neighbouring lines and
 	# the two merge cleanly)
 	git -C "$W/tree" reset -q
+	# (a merge without textual conflicts can still leave a tree that does not compile)
+	if ! (cd "$W/tree/ociregistry" && env -u GOFLAGS GOPROXY=off GOSUMDB=off go build ./... >/dev/null 2>&1); then
+		echo "patch does not apply"; exit 2
+	fi
 	echo "note: merged into HEAD (three-way)"
 else
 	git -C "$W/tree" checkout -q -f HEAD 2>/dev/null; git -C "$W/tree" reset -q --hard HEAD
